@@ -40,9 +40,22 @@ fn parse_braced_block(
 {
     walker.expect(report, syntax::TokenKind::BraceOpen)?;
 
+    if walker.block_nesting_depth >= expr::PARSE_RECURSION_DEPTH_MAX
+    {
+        report.error_span(
+            "block nesting depth limit reached",
+            walker.get_cursor_span());
+
+        return Err(());
+    }
+
+    walker.block_nesting_depth += 1;
+
     let block = asm::parser::parse_nested_toplevel(
         report,
         walker)?;
+
+    walker.block_nesting_depth -= 1;
 
     walker.expect(report, syntax::TokenKind::BraceClose)?;
 
